@@ -111,7 +111,9 @@ def run_config(spec, setup, ts, scheme, L, T, K):
             bf = getattr(bc, side)
             t += 1
             if ax == pax:
-                bf.periodic = True
+                # either face declares the axis periodic: both / low only / high only, chosen from the grid
+                if U.flag_mode(sum(dims), spec["org"], len(cls)) in ("both", ("lo", "hi")[hi]):
+                    bf.periodic = True
             elif setup == "robin":
                 bf.a = 1.0 * L
                 bf.b = (8.0 + t) * (1.0 if hi else -1.0)
